@@ -31,7 +31,10 @@ struct Res
     Res& operator=(const Res&) = default;
 #endif
 };
-struct ItemF { NV operator()(char) const { return NV(tv::Fresh{}, false, 0); } };
+// the k-th element functor call of a parse may throw (a functor reporting a semantic error): the parse ends with that exception
+inline thread_local long g_item_calls = 0, g_item_throw_at = -1;
+struct item_failure : std::runtime_error { item_failure() : std::runtime_error("element functor failure injected by the harness") {} };
+struct ItemF { NV operator()(char) const { if (g_item_calls++ == g_item_throw_at) throw item_failure(); return NV(tv::Fresh{}, false, 0); } };
 struct One { List operator()(NV&& v) const { List l; l.reserve(2); l.emplace_back(std::move(v)); return l; } };
 struct Join { Res operator()(List&& a, char, List&& b) const { return Res{std::move(a), std::move(b)}; } };
 inline const auto& parser_h()
@@ -76,6 +79,64 @@ inline Want eval_h(const std::string& text)
     if (!list(w.nr)) return w;
     w.ok = p == t.size();
     return w;
+}
+}
+
+// ---------------------------------------------------------------------------------------------------
+// the fixed-capacity value stack: with a cstring_buffer<N> input and value types that are all default constructible and trivially destructible the
+// parser keeps its values in a cvector instead of a std::vector. TD has no destructor but counts its copies and moves, so a value that is copied
+// on its way over that stack shows.
+namespace hc
+{
+using namespace ctpg; using namespace ctpg::ftors;
+inline thread_local long g_copies = 0, g_moves = 0, g_fresh = 0;
+struct TD
+{
+    int n = 0; int first = 0;
+    constexpr TD() = default;
+    constexpr TD(int n_, int f_) : n(n_), first(f_) {}
+    TD(const TD& o) : n(o.n), first(o.first) { ++g_copies; }
+    TD(TD&& o) noexcept : n(o.n), first(o.first) { ++g_moves; o.n = -1000000; }
+    TD& operator=(const TD& o) { n = o.n; first = o.first; ++g_copies; return *this; }
+    TD& operator=(TD&& o) noexcept { n = o.n; first = o.first; ++g_moves; o.n = -1000000; return *this; }
+};
+static_assert(std::is_trivially_destructible_v<TD> && !std::is_trivially_copyable_v<TD>);
+inline const auto& parser_c()
+{
+    static const auto* p = []
+    {
+        constexpr nterm<TD> sum("sum"), item("item");
+        return new parser(
+            sum, terms('x', '+', '(', ')'), nterms(sum, item),
+            rules(
+                sum(item),
+                sum(sum, '+', item) >= [](TD&& a, char, TD&& b) { TD r(std::move(a)); r.n += b.n; return r; },
+                item('x') >= [](char) { return TD(1, int(++g_fresh)); },
+                item('(', sum, ')') >= _e2
+            ));
+    }();
+    return *p;
+}
+struct Got { bool has = false; int n = 0; int first = 0; bool threw = false; std::string exc; };
+template<size_t N> Got run_n(const std::string& text)
+{
+    char arr[N + 1]; for (size_t i = 0; i < N; ++i) arr[i] = text[i]; arr[N] = 0;
+    Got g; std::ostringstream os;
+    try { auto r = parser_c().parse(parse_options{}, ctpg::buffers::cstring_buffer<N + 1>(arr), os); if (r.has_value()) { g.has = true; g.n = r.value().n; g.first = r.value().first; } }
+    catch (const std::exception& e) { g.threw = true; g.exc = e.what(); }
+    return g;
+}
+template<size_t N = 1> Got run_c(const std::string& text)
+{
+    if constexpr (N > 24) { (void)text; return Got{}; }
+    else { if (text.size() == N) return run_n<N>(text); return run_c<N + 1>(text); }
+}
+// independent: blanks removed; sum = item ('+' item)*, item = x | '(' sum ')'; value = number of x
+inline bool eval_c(const std::string& t, size_t& p, int& n)
+{
+    auto item = [&](auto& self_sum) -> bool { if (p < t.size() && t[p] == 'x') { ++p; ++n; return true; } if (p < t.size() && t[p] == '(') { ++p; if (!self_sum(self_sum)) return false; if (p < t.size() && t[p] == ')') { ++p; return true; } return false; } return false; };
+    auto sum = [&](auto& self) -> bool { if (!item(self)) return false; while (p < t.size() && t[p] == '+') { ++p; if (!item(self)) return false; } return true; };
+    return sum(sum);
 }
 }
 
@@ -137,12 +198,44 @@ struct P_C14h
     static Verdict eval(const Case& c, Stats& st)
     {
         size_t interesting = 0; bool any_recovery = false, any_deep = false, any_push = false;
+        // the fixed-capacity value stack (cstring_buffer<N>, trivially destructible values): a text derived from the case's bytes
+        for (size_t k = 0; k < c.inputs.size(); ++k)
+        {
+            std::string t; for (char ch : c.inputs[k]) { if (ch == 'x' || ch == '(' || ch == ')') t += ch; else if (ch == ',' || ch == '+') t += '+'; if (t.size() >= 24) break; }
+            if (t.empty()) continue;
+            size_t p = 0; int n = 0; const bool ok = hc::eval_c(t, p, n) && p == t.size();
+            hc::g_copies = hc::g_moves = hc::g_fresh = 0;
+            hc::Got g = hc::run_c<1>(t);
+            st.sub_evaluations += st.counting ? 1 : 0;
+            vj::Value d = vj::Value::object(); d.set("input_index", (unsigned long long)k); d.set("cstring_text", t); d.set("copies", (long long)hc::g_copies); d.set("moves", (long long)hc::g_moves);
+            if (g.threw) { d.set("exception", g.exc); return Verdict::fail("parse through cstring_buffer threw", d); }
+            if (g.has != ok || (ok && (g.n != n || g.first != 1))) return Verdict::fail("parse through cstring_buffer (fixed-capacity value stack): wrong result", d);
+            if (hc::g_copies != 0) return Verdict::fail("values were copied on the fixed-capacity value stack (cstring_buffer input, trivially destructible value types): every shift and reduce must move", d);
+            if (ok && n >= 3) st.label("cstring-fixed-stack-parse");
+        }
         for (size_t k = 0; k < c.inputs.size(); ++k)
         {
             const std::string& text = c.inputs[k];
             hl::Want w = hl::eval_h(text);
-            tv::reg().reset();
-            vj::Value d = vj::Value::object(); d.set("input_index", (unsigned long long)k); d.set("input", text.size() > 400 ? text.substr(0, 400) + "..." : text); d.set("input_bytes", (unsigned long long)text.size());
+            vj::Value d = vj::Value::object(); d.set("input_index", (unsigned long long)k);
+            // first, for some texts: the same parse with an element functor that throws half-way: every value created so far must be destroyed when the
+            // exception leaves parse(), and nothing of it may be left for the parse that follows
+            if (w.ok && w.nl + w.nr >= 2 && (k + text.size()) % 3 == 0)
+            {
+                tv::reg().reset(); hl::g_item_calls = 0; hl::g_item_throw_at = long((w.nl + w.nr) / 2);
+                bool thrown = false; std::ostringstream os0;
+                try { auto r0 = hl::parser_h().parse(ctpg::parse_options{}, ctpg::buffers::string_buffer(std::string(text)), os0); (void)r0; } catch (const hl::item_failure&) { thrown = true; } catch (const std::exception& e) { hl::g_item_throw_at = -1; d.set("exception", e.what()); d.set("input", text.substr(0, 300)); return Verdict::fail("parse threw something other than the functor's exception", d); }
+                hl::g_item_throw_at = -1;
+                st.sub_evaluations += st.counting ? 1 : 0;
+                d.set("input", text.size() > 400 ? text.substr(0, 400) + "..." : text);
+                if (!thrown) return Verdict::fail("an exception thrown by a functor did not leave parse()", d);
+                const tv::Registry& rg0 = tv::reg();
+                d.set("constructions", (long long)rg0.constructions); d.set("destructions", (long long)rg0.destructions); d.set("still_alive", (unsigned long long)rg0.live.size());
+                if (rg0.double_destroy || rg0.destroy_unknown) return Verdict::fail("a value was destroyed twice while an exception left parse()", d);
+                if (rg0.constructions != rg0.destructions || !rg0.live.empty()) return Verdict::fail("values created before a functor threw were not destroyed when the exception left parse()", d);
+                st.label("parse-ended-by-functor-exception");
+            }
+            tv::reg().reset(); hl::g_item_calls = 0; d.set("input", text.size() > 400 ? text.substr(0, 400) + "..." : text); d.set("input_bytes", (unsigned long long)text.size());
             bool threw = false; std::string exc; bool has = false; std::ostringstream os;
             {
                 std::optional<hl::Res> got;
